@@ -48,4 +48,12 @@ OBLIGATIONS = [
     chx("create_readonly_node", "C18_h", "h_create_readonly_node", timeout=T,
         desc="DirectoryNode._create_readonly_node (the diminishing step behind 'no-write' links) on a real node of every cap kind: the result has no write authority and the same read cap; "
              "already read-only known nodes are returned unchanged"),
+    chx("unknown_caps", "C18_h", "h_unknown_caps", timeout=T,
+        desc="unknown-format caps whose text contains 'ro.' / 'imm.' / 'URI:' after position 0, given in the write slot only / read slot only / both, mutable and immutable context "
+             "(real NodeMaker, UnknownNode, pack_children, _unpack_contents): a bare cap in the write slot is refused (MustNotBeUnknownRWError) and cannot be packed; a read-slot cap is "
+             "marked 'ro.'/'imm.' at position 0; a (rw, ro) pair keeps rw only for the write-cap holder; the plaintext never contains the write cap; a read-cap holder gets a marked read cap"),
+    chx("empty_dirs_isolated", "C18_h", "h_empty_dirs_isolated", timeout=T,
+        cases={"quick": [_c("a", sel=[0, 1, 2, 4])], "thorough": [_c("all", sel=list(range(8)))]},
+        desc="three initially empty directories in one process (real _unpack_contents / Adder.modify / _pack_contents): after a child is linked into A, listing empty B (read-only or not) "
+             "still yields nothing, the first add into C stores only C's child and none of A's write caps, and A keeps exactly its own child"),
 ]
